@@ -460,6 +460,8 @@ Ev(node, e, st) ==
          ELSE LET r == Ev(node.a[1], e, st) IN IF ~IsVal(r) THEN r ELSE R(O("ret", r.o.v), r.st)
     [] node.n = "error" ->
          LET r == Ev(node.a[1], e, st) IN IF ~IsVal(r) THEN r ELSE R(Err(r.o.v), r.st)
+    [] node.n = "input" -> Ev(node.a[1], e, st)           \* str_input(text): its lines, iterated like a list of strings
+    [] node.n = "evalstr" -> Ev(node.a[1], e, st)         \* eval('<source>'): the code runs in the caller's frame
     [] node.n = "log" ->                                  \* log(x): append to the observation list
          LET r == Ev(node.a[1], e, st) IN
          IF ~IsVal(r) THEN r ELSE R(r.o, [r.st EXCEPT !.log = Append(@, r.o.v)])
